@@ -36,6 +36,7 @@ def export(spec, builder=None, top=None):
     b = builder or Builder(spec)
     topm = b.module(spec["top"] if top is None else top)
     pkg = h.to_proto(topm)
+    topm._verif_conn_mismatches = list(b.conn_mismatches)
     return pkg, topm
 
 
@@ -51,6 +52,10 @@ def evaluate(spec, want_netlist=False):
     except Exception as e:
         return {"status": "reject", "sig": exc_bucket(e), "detail": "%s: %s" % (type(e).__name__, str(e)[-600:])}
     out = {"pkg": pkg.SerializeToString(deterministic=True)}
+    mism = getattr(topm, "_verif_conn_mismatches", [])
+    if mism:
+        out.update(status="fail", sig="conns_out_of_step", detail="; ".join(mism[:3]), closure=[])
+        return out
     errs = pkgread.closure_errors(pkg)
     out["closure"] = errs
     try:
